@@ -4,9 +4,14 @@
   Model: `Model/VerifyIndex.lean`; the batching arithmetic (`batch`, loop step, `last`, clamp,
   slice bounds) is regenerated from verifyindex.go on every run, so `batches_partition` is a
   theorem about the expressions the code contains now.  Digest `H` is a parameter.
-  Cancellation is C07's subject; here the context is not cancelled.
+  `Model/VerifyIndexConc.lean`: the function as the code runs it — length check, then the worker
+  pool of `Model/Pool.lean` whose job j is the j-th batch and succeeds iff every chunk of the batch
+  validates (`Pool.stepJ`); `verify_index_concurrent` quantifies over every worker count, every
+  schedule and every cancellation point.  The pool machine is tied to verifyindex.go by its
+  regenerated shape and by event traces recorded under a cooperative scheduler (`pool.accept`).
 -/
 import Desync.Proofs.VerifyIndexProofs
+import Desync.Proofs.VerifyIndexConcProofs
 import Desync.Generated.Facts
 
 namespace Desync.C17
@@ -42,6 +47,46 @@ theorem single_change_detected (H : Digest) (f g : Bytes) (idx : Index) (n : Nat
     f = g :=
   Desync.single_change_detected H f g idx n hn ht hlen hf hg hinj
 
+/-- **`VerifyIndex` on its worker pool, every worker count, every schedule**: `s` is any state the
+    pool can reach (`ReachableJ`: any interleaving of feeder and workers, any moment of a parent
+    cancellation) and `o` what `VerifyIndex` returns there.  If the context was not cancelled, `o` is the
+    verdict of the sequential model — in particular success iff the file has the indexed length (or is
+    a device) and every chunk range hashes to its ID.  If it was cancelled at any moment, success still
+    means that the file matches (the shape marks and reports the interruption: `gen_pool_shape`) -/
+theorem verify_index_concurrent (sh : Pool.PoolShape) (H : Digest) (file : Bytes) (isDevice : Bool)
+    (idx : Index) (n : Nat) (hn : 1 ≤ n) (s : Pool.St)
+    (h : Pool.ReachableJ sh (goodBatch H file idx n) (Pool.St.init (verifyJobs idx n) n) s)
+    (o : VerifyOutcome) (ho : verifyIndexConc file isDevice idx n s = some o) :
+    (s.parentCancelled = false →
+      o = (verifyIndex H file isDevice idx n).toOutcome ∧
+      (o = .ok ↔ ((isDevice = true ∨ file.length = idx.length.toNat) ∧
+        ∀ c ∈ idx.chunks, validateChunk H file c = true))) ∧
+    (sh.ok = true → o = .ok → ((isDevice = true ∨ file.length = idx.length.toNat) ∧
+        ∀ c ∈ idx.chunks, validateChunk H file c = true)) := by
+  refine ⟨fun hc => ?_, fun hsh hok => ?_⟩
+  · have heq := verifyIndexConc_eq_sequential sh H file isDevice idx n s h hc o ho
+    refine ⟨heq, ?_⟩
+    rw [← Desync.verify_iff H file isDevice idx n hn, heq]
+    cases verifyIndex H file isDevice idx n <;> simp [VerifyRes.toOutcome]
+  · subst hok
+    exact (Desync.verify_iff H file isDevice idx n hn).1
+      (verifyIndexConc_ok_sound sh hsh H file isDevice idx n s h ho)
+
+/-- every schedule goes on until `VerifyIndex` returns: in a reachable state of the pool without a
+    result some step other than a cancellation is enabled (no lost worker, no blocked feeder) -/
+theorem verify_index_concurrent_progress (sh : Pool.PoolShape) (H : Digest) (file : Bytes) (idx : Index)
+    (n : Nat) (hn : 1 ≤ n) (s : Pool.St)
+    (h : Pool.ReachableJ sh (goodBatch H file idx n) (Pool.St.init (verifyJobs idx n) n) s)
+    (hr : s.result = none) :
+    ∃ e s', e ≠ Pool.Ev.parentCancel ∧ Pool.stepJ sh (goodBatch H file idx n) s e = some s' :=
+  Pool.no_deadlockJ sh _ _ n s hn h hr
+
+/-- **regenerated obligation**: `VerifyIndex` marks the interruption in its `ctx.Done()` arm and
+    reports it after `g.Wait()` (the shape `verify_index_concurrent` needs under cancellation) -/
+theorem gen_pool_shape :
+    (Pool.PoolShape.mk Gen.poolShape_VerifyIndex.1 Gen.poolShape_VerifyIndex.2).ok = true ∧
+    Gen.site_pool_VerifyIndex_found = true ∧ Gen.site_pool_waitOrInterrupted_found = true := by decide
+
 /-- regenerated sites were found -/
 theorem gen_sites :
     Gen.site_verify_batch_found = true ∧ Gen.site_verify_step_found = true ∧
@@ -53,6 +98,25 @@ theorem gen_sites :
 example : batches 25 1 = [(0,3),(3,6),(6,9),(9,12),(12,15),(15,18),(18,21),(21,24),(24,25)] := by decide
 example : Tiles 0 [⟨[], 0, 5⟩, ⟨[], 5, 7⟩] ∧ tileEnd 0 [⟨[], 0, 5⟩, ⟨[], 5, 7⟩] = 12 := by
   simp [Tiles, tileEnd]
+
+/-- the hypotheses of `verify_index_concurrent` are satisfiable: a two-chunk file that matches, two
+    workers, a schedule ending in success; and a mismatching one ending in `mismatch` -/
+example : ∃ s, Pool.ReachableJ ⟨true, true⟩ (goodBatch (fun b => b) [1, 2, 3] ⟨0, 0, 0, 0, [⟨[1], 0, 1⟩, ⟨[2, 3], 1, 2⟩]⟩ 2)
+      (Pool.St.init (verifyJobs ⟨0, 0, 0, 0, [⟨[1], 0, 1⟩, ⟨[2, 3], 1, 2⟩]⟩ 2) 2) s ∧
+    verifyIndexConc [1, 2, 3] false ⟨0, 0, 0, 0, [⟨[1], 0, 1⟩, ⟨[2, 3], 1, 2⟩]⟩ 2 s = some .ok := by
+  have hrun : ((Pool.runJ ⟨true, true⟩ (goodBatch (fun b => b) [1, 2, 3] ⟨0, 0, 0, 0, [⟨[1], 0, 1⟩, ⟨[2, 3], 1, 2⟩]⟩ 2)
+      (Pool.St.init 2 2) [.feedSend 1, .feedSend 0, .workOk 0, .feedEnd, .workExit 0, .workOk 1, .workExit 1, .wait]).map
+      (·.result)) = some (some .ok) := by decide
+  cases hs : Pool.runJ ⟨true, true⟩ (goodBatch (fun b => b) [1, 2, 3] ⟨0, 0, 0, 0, [⟨[1], 0, 1⟩, ⟨[2, 3], 1, 2⟩]⟩ 2)
+      (Pool.St.init 2 2) [.feedSend 1, .feedSend 0, .workOk 0, .feedEnd, .workExit 0, .workOk 1, .workExit 1, .wait] with
+  | none => simp [hs] at hrun
+  | some s =>
+    simp only [hs, Option.map_some, Option.some.injEq] at hrun
+    exact ⟨s, Pool.reachableJ_of_runJ _ .refl hs, by simp [verifyIndexConc, hrun]; decide⟩
+
+example : ((Pool.runJ ⟨true, true⟩ (goodBatch (fun b => b) [1, 2, 4] ⟨0, 0, 0, 0, [⟨[1], 0, 1⟩, ⟨[2, 3], 1, 2⟩]⟩ 1)
+      (Pool.St.init 2 1) [.feedSend 0, .workOk 0, .feedSend 0, .workFail 0, .feedEnd, .wait]).map (·.result)) =
+    some (some .err) := by decide
 
 /-- **regenerated obligation**: `desync verify-index` hands every invocation to `VerifyIndex` with the worker
     count the user gave; no path returns success before that call -/
